@@ -303,4 +303,8 @@ def run(P, R, tier):
     effects_guarded(P, R, cl)
     lookup_skips(P, R, cl)
     serial_writers(P, R)
+    # the awaiting bit names a service by its slot: slots must not move under a pending client
+    from ..report import Remap
+    from . import c07
+    c07.slot_stability(P, Remap(R, {'C07.WMC.3': 'C04.WMC.3'}))
     return EXPLANATION, ASSUMPTIONS
